@@ -29,6 +29,7 @@ SCOPE = {
     "subs": ["C02", "C05", "C11", "C12", "C13"],
     "conns": ["C02", "C13", "C14", "C17"],
     "timer": ["C12", "C13", "C15"],
+    "dbfiles": ["C19", "C20"],
     "other": ALL,
 }
 
@@ -196,6 +197,8 @@ def _exp():
 
 def run_stream(profile_name, seeds, jobs=None, keep=True, chunk=8):
     jobs = jobs or min(16, os.cpu_count() or 1)
+    if profile_name.startswith("holes"):
+        chunk = 2        # few, long histories: spread them over the workers
     tasks = [(seeds[i:i + chunk], profile_name, keep) for i in range(0, len(seeds), chunk)]
     if jobs == 1 or len(tasks) == 1:
         res = [_worker(t) for t in tasks]
